@@ -91,12 +91,81 @@ def small_multinet(pp, ppw, fluid, fluid2="lgas"):
     return mn, gas, power, gas2
 
 
+def helper_timeseries(case):
+    """the documented helper `coupled_p2g_const_control` (ConstControl on the load + P2G coupling) placed on a random
+    controller level / order pair, driven through the multinet time series: after every logged step the gas source holds
+    the conversion of that step's load value, and the registered controllers sit on the requested level"""
+    import pandas as pd
+    import pandapower as ppw
+    import pandapipes as pp
+    from pandapower.timeseries import DFData, OutputWriter
+    from pandapipes.multinet.control.controller.multinet_control import coupled_p2g_const_control
+    from pandapipes.multinet.timeseries.run_time_series_multinet import run_timeseries
+    rng = np.random.default_rng(case["seed"])
+    mn, gas, power, gas2 = small_multinet(pp, ppw, case["fluid"])
+    hhv = float(np.ravel(pp.get_fluid(gas).get_property("hhv"))[0])
+    level = int(rng.integers(0, 3))
+    order = (int(rng.integers(0, 2)), int(rng.integers(2, 4)))
+    eta = float(rng.uniform(0.4, 0.95))
+    sc = float(rng.choice([1.0, 0.5, 1.5]))
+    T = int(rng.integers(3, 6))
+    prof = pd.DataFrame({"p2g": rng.uniform(1.0, 20.0, T)})
+    ld = ppw.create_load(power, 1, p_mw=0.123, scaling=sc)
+    src = pp.create_source(gas, 1, 0.0)
+    const, p2g = coupled_p2g_const_control(mn, ld, src, eta, profile_name="p2g", data_source=DFData(prof), order=order, level=level)
+    if level > 0:
+        # a controller on a lower level (late in its level's order) that settles the coupled load's scaling inside the control
+        # loop: the coupling, being on a higher level, must see the settled value
+        from pandapower.control.basic_controller import Controller
+
+        class SettleScaling(Controller):
+            def __init__(self, net, idx, value, **kw):
+                super().__init__(net, **kw)
+                self.idx, self.value, self.applied = idx, value, False
+
+            def time_step(self, net, time):
+                self.applied = False
+                net.load.at[self.idx, "scaling"] = 1.0
+
+            def control_step(self, net):
+                net.load.at[self.idx, "scaling"] = self.value
+                self.applied = True
+
+            def is_converged(self, net):
+                return self.applied
+
+        SettleScaling(power, ld, sc, order=7, level=0)
+    fails = []
+    lv = [int(np.ravel(mn.controller.level.at[i])[0]) if np.ndim(mn.controller.level.at[i]) else int(mn.controller.level.at[i])
+          for i in mn.controller.index]
+    cl = [int(np.ravel(power.controller.level.at[i])[0]) if np.ndim(power.controller.level.at[i]) else int(power.controller.level.at[i])
+          for i in power.controller.index]
+    ow = OutputWriter(gas, range(T), output_path=None, log_variables=[("source", "mdot_kg_per_s")])
+    try:
+        run_timeseries(mn, range(T), max_iter_hyd=60, verbose=False)
+    except Exception as e:
+        return {"status": "skip:" + type(e).__name__}
+    logged = np.asarray(ow.np_results["source.mdot_kg_per_s"], float)[:, 0]
+    expected = prof["p2g"].values * sc * (1e3 / (hhv * 3600)) * eta
+    bad = np.flatnonzero(np.abs(logged - expected) > 1e-12 * (1 + np.abs(expected)))
+    if bad.size:
+        fails.append({"fingerprint": "C20:helper-timeseries:written-value", "clause": "written value = scaled load x factor x efficiency, every step",
+                      "detail": {"level": level, "order": list(order), "step": int(bad[0]), "written": float(logged[bad[0]]),
+                                 "expected": float(expected[bad[0]]), "controller_levels": {"multinet": lv, "power": cl}}})
+    return {"status": "ok", "failures": fails, "hash": "helper" + str(sorted(case.items())) , "nontrivial": level > 0,
+            "tags": ["helper-timeseries", "level%d" % level], "sample": dict(case, level=level, order=list(order))}
+
+
 def gen(rng):
+    if rng.random() < 0.3:
+        return {"helper_ts": True, "fluid": str(rng.choice(["hgas", "lgas", "hydrogen", "methane"])), "seed": int(rng.integers(0, 2 ** 31))}
     return {"fluid": str(rng.choice(["hgas", "lgas", "hydrogen", "methane"])), "seed": int(rng.integers(0, 2 ** 31)),
             "vector": bool(rng.random() < 0.4), "n_ctrl": int(rng.integers(1, 4)), "infeasible": bool(rng.random() < 0.15)}
 
 
 def oracle(case):
+    if case.get("helper_ts"):
+        return helper_timeseries(case)
     import pandapower as ppw
     import pandapipes as pp
     from pandapipes.multinet.control.controller.multinet_control import (P2GControlMultiEnergy, G2PControlMultiEnergy,
